@@ -9,7 +9,11 @@ Z3_TIMEOUT_MS = int(os.environ.get("PYVC_Z3_TIMEOUT_MS", "10000"))
 CVC5_TIMEOUT_S = int(os.environ.get("PYVC_CVC5_TIMEOUT_S", "20"))
 FEAS_TIMEOUT_MS = 2000
 
-STATS = {"z3_queries": 0, "z3_time": 0.0, "cvc5_queries": 0, "cvc5_time": 0.0, "feas_queries": 0}
+STATS = {"z3_queries": 0, "z3_time": 0.0, "cvc5_queries": 0, "cvc5_time": 0.0, "feas_queries": 0,
+         "cvc5_confirmed": 0, "cvc5_unconfirmed": 0, "cvc5_disagreed": 0}
+# thorough tier: every CONFIRM_EVERY-th obligation that z3 proves is sent to cvc5 as well (two independent solvers agree)
+CONFIRM_EVERY = int(os.environ.get("PYVC_CVC5_CONFIRM_EVERY", "0" if os.environ.get("PYVC_TIER", "quick") != "thorough" else "40"))
+_confirm_counter = [0]
 
 # uninterpreted functions shared by all encodings (named, listed in evidence when used)
 _UF = {}
@@ -47,6 +51,17 @@ def check_sat(constraints, timeout_ms=None, want_model=False, use_cvc5=True):
     if r == z3.sat:
         return "sat", (s.model() if want_model else None), "z3", dt
     if r == z3.unsat:
+        if CONFIRM_EVERY and use_cvc5 and want_model:
+            _confirm_counter[0] += 1
+            if _confirm_counter[0] % CONFIRM_EVERY == 0:
+                st2, out2, dt2 = cvc5_check(s.to_smt2())
+                if st2 == "unsat":
+                    STATS["cvc5_confirmed"] += 1
+                    return "unsat", None, "z3+cvc5", dt + dt2
+                if st2 == "sat":
+                    STATS["cvc5_disagreed"] += 1
+                    return "unknown", None, "z3-unsat/cvc5-sat", dt + dt2
+                STATS["cvc5_unconfirmed"] += 1
         return "unsat", None, "z3", dt
     if not use_cvc5:
         return "unknown", None, "z3", dt
